@@ -101,8 +101,9 @@ func NewHostnameResults(ctx context.Context, l *slog.Logger, d time.Duration, ne
 			continue
 		}
 
-		// Save the IP address immediately
-		ips[netip.AddrPortFrom(addr, uint16(iPort))] = struct{}{}
+		// Save the IP address immediately (an IPv4-mapped literal is the IPv4 address it maps: the allow list and
+		// the own-network filter look at IPv4 entries for it, and DNS results are unmapped the same way below)
+		ips[netip.AddrPortFrom(addr.Unmap(), uint16(iPort))] = struct{}{}
 	}
 	r.ips.Store(&ips)
 
